@@ -2029,6 +2029,7 @@ Plan gen_C12(std::uint64_t seed, int tier) {
         e.op = OP_OFFSETS;
         e.pol = pi;
         e.per_method = g.r.chance(0.5);
+        e.fresh_gen = g.r.chance(0.35);
         g.p.events.push_back(e);
         return g.p.events.back();
     };
